@@ -224,8 +224,10 @@ structure LMon where
   outcome : Bool := false
 deriving DecidableEq, Repr
 
-/-- key of the first clause a legacy entry violates; `id = none`: the timer has no id (never started) -/
-def lcheck (k : Kind) (id : Option Nat) (m : LMon) (e : LEntry) : Option String :=
+/-- key of the first clause a legacy entry violates; `id = none`: the timer has no id (never started).
+    `strict = false` leaves out exactly the clause "a clear of a timer that is not pending (never requested, outcome
+    already reported, already cleared) sends nothing" (used for the partial theorem only; the oracle is strict). -/
+def lcheck (strict : Bool) (k : Kind) (id : Option Nat) (m : LMon) (e : LEntry) : Option String :=
   match id with
   | none => if e.effects.isEmpty && e.events.isEmpty then none else some "foreign-id"
   | some id =>
@@ -246,13 +248,13 @@ def lcheck (k : Kind) (id : Option Nat) (m : LMon) (e : LEntry) : Option String 
       | .startClear, .unit =>
         -- cleared before it was ever requested: nothing is sent
         if e.effects.contains (.notify k id) then some "early-clear-not-silent"
-        else if !e.effects.isEmpty then some "legacy-clear-always-notifies"
+        else if strict && !e.effects.isEmpty then some "legacy-clear-always-notifies"
         else none
       | .clear, .unit =>
         if pending && !m.clearSent then
           (if e.effects == [.clear id] && e.events.isEmpty then none else some "clear-not-sent")
         -- not pending (never requested / outcome reported) or already cleared: the clear is to be ignored
-        else if !e.effects.isEmpty then some "legacy-clear-always-notifies"
+        else if strict && !e.effects.isEmpty then some "legacy-clear-always-notifies"
         else if !e.events.isEmpty then some "output-after-outcome"
         else none
       | .resolveReq s, .ok =>
@@ -273,12 +275,12 @@ def LMon.after (m : LMon) (k : Kind) (id : Option Nat) (e : LEntry) : LMon :=
       clearSent := m.clearSent || e.effects.contains (.clear id),
       outcome := m.outcome || !e.events.isEmpty }
 
-def lverdict1 (k : Kind) (id : Option Nat) : LMon → List LEntry → Option String
+def lverdict1 (strict : Bool) (k : Kind) (id : Option Nat) : LMon → List LEntry → Option String
   | _, [] => none
   | m, e :: rest =>
-    match lcheck k id m e with
+    match lcheck strict k id m e with
     | some key => some key
-    | none => lverdict1 k id (m.after k id e) rest
+    | none => lverdict1 strict k id (m.after k id e) rest
 
 /-- entries of legacy timer `j`: the steps addressed to it -/
 def lproject (j : Nat) (steps : List ((LAct × Nat) × Out)) : List LEntry :=
@@ -287,15 +289,15 @@ def lproject (j : Nat) (steps : List ((LAct × Nat) × Out)) : List LEntry :=
 
 /-- The oracle for the legacy API. `ids[j]` = id of timer `j` if it was ever started; `outs` = per step, what the
     addressed timer showed. -/
-def lverdict (kinds : List Kind) (ids : List (Option Nat)) (steps : List (LAct × Nat)) (idsOk : Bool) (outs : List Out) :
-    Option String :=
+def lverdict (strict : Bool) (kinds : List Kind) (ids : List (Option Nat)) (steps : List (LAct × Nat)) (idsOk : Bool)
+    (outs : List Out) : Option String :=
   if !idsOk then some "id-not-unique"
   else if outs.length != steps.length then some "malformed-observation"
   else if !((steps.zip outs).all fun s => s.1.2 < kinds.length || (s.2.effects.isEmpty && s.2.events.isEmpty)) then
     some "foreign-id"
   else (List.range kinds.length).findSome? fun j =>
     match kinds[j]?, ids[j]? with
-    | some k, some id => lverdict1 k id {} (lproject j (steps.zip outs))
+    | some k, some id => lverdict1 strict k id {} (lproject j (steps.zip outs))
     | _, _ => none
 
 end S.Timer
